@@ -59,20 +59,27 @@ prop("C02", "A crash at any instant loses no source write; transactional mode re
      "'crash' (target stops after its n-th request, tool dies) and 'stop' (tool stopped gracefully at that instant), followed by a process restart that runs to the end sentinel (thorough: additionally a second crash in the resumed run for every third n). "
      "evaluations = tool lives executed; fault_points = enumerated faults; non-trivial = a distinct case (sha1) in which at least one fault hit inside a target MULTI, between a batch and its checkpoint write, or right after a SELECT, and the stream has >=3 expected commands. "
      "Oracle over the concatenated per-run target logs: resume offset is a command boundary inside the stream; run k's executed data commands equal the reference sequence from the resume point (command, args, DB); no gap (resume <= reached+1); "
-     "transactional mode: resume == reached+1 exactly (nothing twice, no fallback to 'none'); the last run reaches the end.",
+     "transactional mode: resume == reached+1 exactly (nothing twice, no fallback to 'none'); the last run reaches the end. "
+     "Second unit (keep-alive): cases in which the source goes idle for longer than the keep-alive ticker (>= 1 s, so these are few) at a chosen boundary - after a SELECT, while commands are still queued (batch ticker 5 s), right after MULTI, inside a transaction, after EXEC; the 8 fault points behind the idle gap (the keep-alive driven flush) are enumerated in both flavours.",
      [{"pkg": "c02", "test": "TestC02",
        "quick": {"checks": 64, "shards": 16, "timeout": 600},
-       "thorough": {"checks": 1600, "shards": 16, "timeout": 5400}}],
+       "thorough": {"checks": 1600, "shards": 16, "timeout": 5400}},
+      {"pkg": "c02", "test": "TestC02Keepalive",
+       "quick": {"checks": 16, "shards": 16, "timeout": 900, "shrinktime": "60s"},
+       "thorough": {"checks": 640, "shards": 16, "timeout": 7200}}],
      CRASH_ASSUME)
 
 prop("C09", "A source transaction reaches the target as one atomic transaction", "fault_enumeration",
      "a case = transactional, resume-enabled configuration (batch size mostly 1-4) x stream biased to MULTI..EXEC groups of length 0,1,2,3,4,5,8,12 (adjacent groups, groups next to SELECT, SELECT inside a group) x schedule; "
      "the fault dimension is enumerated as in C02: every target-request crash point and every graceful-stop instant of the uncrashed run, each followed by a restart to the end. "
      "non-trivial = distinct case with a source transaction that is longer than the batch size or with a fault that hit while a target MULTI was open. "
-     "Oracle per run and per source transaction T (commands aligned with the reference sequence): all executed commands of T lie in ONE target execution group, that group contains ALL of T, and the same group writes a resume position >= the end offset of T's EXEC.",
+     "Oracle per run and per source transaction T (commands aligned with the reference sequence): all executed commands of T lie in ONE target execution group, that group contains ALL of T, and the same group writes a resume position >= the end offset of T's EXEC. Second unit (keep-alive): idle gaps longer than the keep-alive ticker placed around and inside source transactions, fault points behind the gap enumerated.",
      [{"pkg": "c09", "test": "TestC09",
        "quick": {"checks": 48, "shards": 16, "timeout": 600},
-       "thorough": {"checks": 1200, "shards": 16, "timeout": 5400}}],
+       "thorough": {"checks": 1200, "shards": 16, "timeout": 5400}},
+      {"pkg": "c09", "test": "TestC09Keepalive",
+       "quick": {"checks": 16, "shards": 16, "timeout": 900, "shrinktime": "60s"},
+       "thorough": {"checks": 640, "shards": 16, "timeout": 7200}}],
      CRASH_ASSUME + ["the double executes everything queued by one EXEC under one execution-group id (atomic, like Redis)"])
 
 prop("C07", "The stored resume position only moves forward along command boundaries", "exploration",
